@@ -274,6 +274,25 @@ func judgeC13(c *Ctx, sc *Scenario) *Violation {
 					if !res.Failed || len(res.Stdout) > 0 || !res.BStderrOK() {
 						return &Violation{"C13/shallow-clone-measured", fmt.Sprintf("failed=%v stdout %d bytes stderr %q", res.Failed, len(res.Stdout), firstBytes(res.Stderr, 200))}
 					}
+					// the shallow file as another tool may have left it: the
+					// same entries without the final newline, or with CRLF-free
+					// blank lines around them (git itself still reads it as shallow)
+					shf := filepath.Join(dst, ".git", "shallow")
+					if orig, err := os.ReadFile(shf); err == nil && len(bytes.TrimSpace(orig)) >= 40 {
+						for vi, variant := range [][]byte{bytes.TrimRight(orig, "\n"), append([]byte("\n"), orig...)} {
+							os.WriteFile(shf, variant, 0o644)
+							if out, err := ssite.Git(nil, "rev-parse", "--is-shallow-repository"); err == nil && strings.TrimSpace(string(out)) == "true" {
+								vr := RunB(&ssc, ssite, BOpts{})
+								c.Stats.CLIRuns++
+								c.Stats.Probe("shallow-file-variant-runs")
+								if vr.Panic != "" || !vr.Failed || len(vr.Stdout) > 0 || !vr.BStderrOK() {
+									os.WriteFile(shf, orig, 0o644)
+									return &Violation{"C13/shallow-clone-measured", fmt.Sprintf("shallow file variant %d (%q): failed=%v stdout %d bytes stderr %q %s", vi, firstBytes(variant, 90), vr.Failed, len(vr.Stdout), firstBytes(vr.Stderr, 200), firstLines(vr.Panic, 4))}
+								}
+							}
+						}
+						os.WriteFile(shf, orig, 0o644)
+					}
 					// the same shallow clone addressed through a linked worktree
 					// (its own git dir is <main>/.git/worktrees/<name>; the
 					// shallow marker lives in the common git dir)
